@@ -1008,6 +1008,16 @@ private:
          old="            if (i0 > 0)\n            {\n                otensor.vector(i0) += otensor.vector(i0 - 1);", new="            if (i0 > 1)\n            {\n                otensor.vector(i0) += otensor.vector(i0 - 1);"),
     dict(property="C16", name="integral-accumulates-in-input-type", rule="R-C16-4", file="include/nano/tensor/integral.h", tu="src/core/sampling.cpp",
          old="            otensor(i0) = otensor(i0 - 1) + itensor(i0);", new="            otensor(i0) = static_cast<tscalaro>(static_cast<tscalari>(static_cast<tscalari>(otensor(i0 - 1)) + itensor(i0)));"),
+    dict(property="C16", name="remove-if-copies-backwards", rule="R-C16-5", file="include/nano/tensor/algorithm.h", tu="src/solver/gsample/sampler.cpp",
+         old="            (detail::copy(curr, last, tensors), ...);", new="            (detail::copy(last, curr, tensors), ...);"),
+    dict(property="C16", name="remove-if-skips-after-first-kept", rule="R-C16-5", file="include/nano/tensor/algorithm.h", tu="src/solver/gsample/sampler.cpp",
+         old="    for (auto curr = last; curr < size; ++curr)", new="    for (auto curr = last + 2; curr < size; ++curr)"),
+    dict(property="C16", name="indexed-copies-row-i", rule="R-C16-5", file="include/nano/tensor/tensor.h", tu="src/solver/gsample/sampler.cpp",
+         old="                subtensor.vector(i) = vector(indices(i)).template cast<tscalar_return>();", new="                subtensor.vector(i) = vector(i).template cast<tscalar_return>();"),
+    dict(property="C16", name="stack-vector-next-offset", rule="R-C16-5", file="include/nano/tensor/stack.h", tu="src/program/util.cpp",
+         old="        stack(vector, row + block.size(), blocks...);", new="        stack(vector, row + 1, blocks...);"),
+    dict(property="C16", name="stack-matrix-wraps-late", rule="R-C16-5", file="include/nano/tensor/stack.h", tu="src/program/util.cpp",
+         old="            if (col + block_cols >= matrix.cols())", new="            if (col + block_cols > matrix.cols())"),
     # ---- C09
     dict(property="C09", name="linear-accumulator-sum-drops-gW1", rule="R-C09-2", file="src/linear/accumulator.cpp",
          old="    m_gW1 += other.m_gW1;\n", new=""),
@@ -1245,4 +1255,6 @@ BENIGN = [
     {
         (void)shared_iterator.samples();
 """),
+    dict(property="C16", name="remove-if-second-loop-starts-after-first-removed", file="include/nano/tensor/algorithm.h", tu="src/solver/gsample/sampler.cpp",
+         old="    for (auto curr = last; curr < size; ++curr)", new="    for (auto curr = last + 1; curr < size; ++curr)"),
 ]
